@@ -82,6 +82,8 @@ def main():
                                            env=dict(ENV, VERIF_REPO=a.wt), timeout=2400)
                                 if "VIOLATION property=" + c in o:
                                     caught.append(c + ("~" if "no-failing-input-found" in o else ""))
+                                elif (c + " quick:") not in o and (c + " thorough:") not in o:
+                                    caught.append(c + "!checkerror")  # the check itself did not finish: not a verdict
                             verdict = "caught:" + ",".join(caught) if caught else "MISSED"
             finally:
                 open(path, "w").write(orig)
